@@ -736,7 +736,7 @@ type n09Op struct {
 
 func (o n09Op) String() string {
 	switch o.K {
-	case "lock", "unlock":
+	case "lock", "unlock", "push":
 		s := fmt.Sprintf("%s db%d k%d id%d flag=%#x E=%d/%#x count=%d rcount=%d", o.K, o.Db, o.Key, o.Id, o.Flag, o.E, o.EF, o.Cnt, o.Rc)
 		if o.V != nil {
 			if o.V.L > 0 {
